@@ -38,8 +38,10 @@ import (
 	gc "com.tuntun.rangers/node/src/consensus/logical/group_create"
 	"com.tuntun.rangers/node/src/consensus/model"
 	cnet "com.tuntun.rangers/node/src/consensus/net"
+	"com.tuntun.rangers/node/src/middleware"
 	middleware_pb "com.tuntun.rangers/node/src/middleware/pb"
 	"com.tuntun.rangers/node/src/middleware/types"
+	"com.tuntun.rangers/node/src/network"
 	"crypto/sha256"
 	"github.com/gogo/protobuf/proto"
 	"verif/harness/hx"
@@ -374,6 +376,23 @@ func classify(st logical.VerifR1Step) (int, int) {
 
 func hashOf(b []byte) common.Hash { return common.BytesToHash(b) }
 
+// ---- the node's consensus message handler with recording processors (decoder path end to end) ----
+
+type miningStub struct {
+	verify []*model.ConsensusVerifyMessage
+	cast   int
+}
+
+func (m *miningStub) Ready() bool                                   { return true }
+func (m *miningStub) OnMessageCast(msg *model.ConsensusCastMessage) { m.cast++ }
+func (m *miningStub) OnMessageVerify(msg *model.ConsensusVerifyMessage) {
+	m.verify = append(m.verify, msg)
+}
+
+type groupCreateStub struct {
+	cnet.GroupCreateMessageProcessor
+}
+
 // ---- the guard chain of round1.Update as written in the source this binary was built from ----
 
 const (
@@ -473,8 +492,44 @@ func main() {
 	model.Param.SSSSThreshold = model.SSSS_THRESHOLD
 	model.Param.GroupMemberMax = model.GROUP_MAX_MEMBERS
 	model.Param.GroupMemberMin = 3
+	// the real ConsensusHandler (net.MessageHandler.Handle) in front of recording processors: every
+	// message of every run is also sent through it as network bytes
+	common.Init(0, "c15.ini", "dev")
 	plog := &logical.VerifR1Logger{}
 	common.DefaultLogger = plog
+	middleware.PerfLogger = &logical.VerifR1Logger{}
+	mstub := &miningStub{}
+	cnet.MessageHandler.Init(groupCreateStub{}, mstub)
+	handlerProbe := func(bs []byte, decodable bool, kind string, input func() interface{}) {
+		before := len(mstub.verify)
+		func() {
+			defer func() {
+				if p := recover(); p != nil {
+					res.Violate("C15/handler:panic-escaped:"+kind, fmt.Sprint("ConsensusHandler.Handle let a panic escape: ", p), input())
+				}
+			}()
+			cnet.MessageHandler.Handle("probe", network.Message{Code: network.VerifiedCastMsg, Body: bs})
+		}()
+		delivered := len(mstub.verify) > before
+		logs := plog.Take()
+		switch {
+		case decodable && !delivered:
+			res.Violate("C15/handler:valid-message-not-delivered:"+kind, "a well-formed verify message sent through ConsensusHandler.Handle did not reach OnMessageVerify", input())
+		case !decodable && delivered:
+			res.Violate("C15/handler:undecodable-message-delivered:"+kind, "a verify message the decoder cannot return reached OnMessageVerify", input())
+		case !decodable:
+			if has(logs, "error") {
+				res.Histogram["handler:decoder-panic-recovered-message-dropped:"+kind]++
+			} else {
+				res.Histogram["handler:undecodable-message-dropped:"+kind]++
+			}
+		default:
+			res.Histogram["handler:delivered"]++
+		}
+		if len(mstub.verify) > 64 {
+			mstub.verify = mstub.verify[:0]
+		}
+	}
 
 	// ---- the guard chain as written ----
 	if codes, conds, err := guardChain(); err != nil {
@@ -497,6 +552,30 @@ func main() {
 		cs.Add("CGuards "+hx.CoqList(cl), map[string]interface{}{"kind": "guard-chain", "conditions": conds})
 		res.Count("guard-chain", "guards", true)
 		res.Note("guard chain of round1.Update: " + strings.Join(conds, " | "))
+	}
+
+	// ---- the future-message store of the real Processor under a flood of verify messages ----
+	{
+		fr := rng.Fork()
+		vp := logical.VerifR1NewProcessor(&logical.VerifR1Logger{})
+		h := hashOf(fr.Bytes(32))
+		for i := 0; i < 3; i++ {
+			vp.OnMessageVerify(&model.ConsensusVerifyMessage{BlockHash: h, Id: fmt.Sprintf("kept-%d", i)})
+		}
+		kept := vp.Stored(h)
+		flood := 0
+		for ; flood < 200 && vp.Stored(h) > 0; flood++ {
+			vp.OnMessageVerify(&model.ConsensusVerifyMessage{BlockHash: hashOf(fr.Bytes(32)), Id: fmt.Sprintf("junk-%d", flood)})
+		}
+		res.Count("future-store-flood", "flood", true)
+		if kept != 3 {
+			res.Violate("C15/processor:store-count", fmt.Sprintf("3 verify messages sent for a block without party, %d kept", kept), nil)
+		}
+		if vp.Stored(h) == 0 {
+			res.Violate("C15/future-store:evicted-by-flood", fmt.Sprintf("3 verify messages kept for block %s (no party yet) were dropped from the future-message cache after %d verify messages naming other block hashes (nothing about those messages is checked before they are stored)", h.Hex(), flood),
+				map[string]interface{}{"block_hash": h.Hex(), "kept": kept, "junk_messages_until_evicted": flood})
+		}
+		res.Note(fmt.Sprintf("future-message cache: entry of a block evicted after %d verify messages naming other hashes", flood))
 	}
 
 	nRuns := a.N
@@ -799,6 +878,23 @@ func main() {
 				nFut = k + 2
 			}
 		}
+		procMode, nPre := false, 0
+		desc := func() interface{} {
+			var ml []interface{}
+			for _, m := range msgs {
+				ml = append(ml, map[string]interface{}{"kind": m.kind, "sender": m.sender.String(), "member": m.member, "data_hash": m.dhash.Hex(),
+					"filed": m.filed.Hex(), "sig": hex.EncodeToString(m.sig.sig.Serialize()), "rsig": hex.EncodeToString(m.rsig.sig.Serialize())})
+			}
+			var ks, is []string
+			for j := range g.ids {
+				is = append(is, g.ids[j].String())
+				ks = append(ks, g.keys[j].String())
+			}
+			return map[string]interface{}{"n": n, "k": k, "ids": is, "member_keys": ks, "group_secret": g.gsk.String(), "unknown_member": unknownMember,
+				"block_hash": bhHash.Hex(), "pre_random": hex.EncodeToString(preRandom), "block_exists": existed, "consistent_keys": consistent,
+				"replayed_at_start": nFut, "through_processor": procMode, "arrived_before_cast": nPre, "keys_registered_by_message": viaMsg, "faulty_registration": atk,
+				"outsider_id": outsiderID.String(), "squatted_member": squatted, "messages": ml}
+		}
 		// every message travels as the node sends it: protobuf bytes decoded by
 		// net.UnMarshalConsensusVerifyMessage, so the message id is the decoder's.  (The decoder cannot
 		// return a message whose share signature does not parse - it dereferences nil; such messages
@@ -847,10 +943,12 @@ func main() {
 			msgs, nFut = kept, nf
 		}
 		idIndex := map[string]int{}
+		idAll := map[string][]int{} // byte-identical messages share an id
 		mkCvm := func(i int) *model.ConsensusVerifyMessage {
 			m := msgs[i]
 			bs := encode(m)
 			cvm := decode(bs)
+			handlerProbe(bs, cvm != nil, strings.TrimPrefix(m.kind, "dup:"), desc)
 			if cvm == nil {
 				res.Histogram["decoder-cannot-return-message:"+strings.TrimPrefix(m.kind, "dup:")]++
 				h := sha256.Sum256(bs)
@@ -860,11 +958,23 @@ func main() {
 			if _, dup := idIndex[cvm.Id]; !dup {
 				idIndex[cvm.Id] = i
 			}
+			idAll[cvm.Id] = append(idAll[cvm.Id], i)
 			return cvm
 		}
 		var futCvm []*model.ConsensusVerifyMessage
 		for i := 0; i < nFut; i++ {
 			futCvm = append(futCvm, mkCvm(i))
+		}
+		// a quarter of the runs without stored messages go through the Processor: verify messages
+		// arriving before the cast message are kept by Processor.OnMessageVerify under their block
+		// hash, the party appears (cast message accepted), the node re-keys it and drains the kept
+		// messages, later messages are routed to it, the ended party is retired
+		procMode = nFut == 0 && r.Intn(4) == 0
+		var vp *logical.VerifR1Proc
+		procLog := &logical.VerifR1Logger{}
+		if procMode {
+			vp = logical.VerifR1NewProcessor(procLog)
+			nPre = r.Intn(len(msgs) + 1)
 		}
 		v, err0 := logical.VerifR1New(logical.VerifR1Config{Self: ids[0], Group: gInfo, PreBH: preBH, BH: bh, BlockExists: existed, Net: netStub, Future: futCvm})
 		if v == nil {
@@ -876,22 +986,6 @@ func main() {
 		closed, finished := false, false
 		finalTerm := tNone
 		var admitted []int // positions in msgs
-		desc := func() interface{} {
-			var ml []interface{}
-			for _, m := range msgs {
-				ml = append(ml, map[string]interface{}{"kind": m.kind, "sender": m.sender.String(), "member": m.member, "data_hash": m.dhash.Hex(),
-					"filed": m.filed.Hex(), "sig": hex.EncodeToString(m.sig.sig.Serialize()), "rsig": hex.EncodeToString(m.rsig.sig.Serialize())})
-			}
-			var ks, is []string
-			for j := range g.ids {
-				is = append(is, g.ids[j].String())
-				ks = append(ks, g.keys[j].String())
-			}
-			return map[string]interface{}{"n": n, "k": k, "ids": is, "member_keys": ks, "group_secret": g.gsk.String(), "unknown_member": unknownMember,
-				"block_hash": bhHash.Hex(), "pre_random": hex.EncodeToString(preRandom), "block_exists": existed, "consistent_keys": consistent,
-				"replayed_at_start": nFut, "keys_registered_by_message": viaMsg, "faulty_registration": atk,
-				"outsider_id": outsiderID.String(), "squatted_member": squatted, "messages": ml}
-		}
 		// the replay: split the round's log at the "round1 update" lines, which name the message id
 		var futOrder []int
 		var futObs []int
@@ -962,21 +1056,191 @@ func main() {
 			v.Log.Take()
 		}
 		plog.Take()
+		order := []int{} // indices of msgs in the order the party saw them (after the replayed ones)
+		skipped := map[int]bool{}
+		waitEnd := func() int { // proc mode: the party ended; how?
+			for t := 0; t < 400 && !(vp.Finished(bhHash) && !vp.HasParty(bhHash)); t++ {
+				time.Sleep(5 * time.Millisecond)
+			}
+			if !vp.Finished(bhHash) {
+				res.Violate("C15/processor:ended-party-not-retired", "the party ended but the processor did not retire it", desc())
+			}
+			if len(v.Generated()) == 1 {
+				return tDone
+			}
+			for _, l := range procLog.Take() {
+				switch {
+				case strings.Contains(l.Text, "fail to verify group sign"):
+					return tErrG
+				case strings.Contains(l.Text, "fail to verify random sign"):
+					return tErrR
+				case strings.Contains(l.Text, "block already existed"):
+					return tErrExisted
+				}
+			}
+			return tErrOther
+		}
+		procStep := func(logs []logical.VerifR1LogLine) (int, int) {
+			oc, _ := classify(logical.VerifR1Step{Logs: logs})
+			term := tNone
+			if oc == oExisted || has(logs, "round2 start") {
+				term = waitEnd()
+			}
+			return oc, term
+		}
+		var drained []int
+		if procMode {
+			stored := 0
+			for i := 0; i < nPre; i++ {
+				vp.OnMessageVerify(mkCvm(i))
+				if msgs[i].filed == bhHash {
+					stored++
+				} else {
+					skipped[i] = true
+				}
+			}
+			if vp.Stored(bhHash) != stored {
+				res.Violate("C15/processor:store-count", fmt.Sprintf("%d verify messages for the block arrived before the cast message, %d are kept", stored, vp.Stored(bhHash)), desc())
+			}
+			v.Log.Take()
+			vp.Adopt(v, fmt.Sprintf("provisional-%d", run))
+			// wait for the re-keying and for the kept messages to be handed to the party
+			var lines []logical.VerifR1LogLine
+			count := func() int {
+				c := 0
+				for _, l := range lines {
+					if l.Format == "update %s" {
+						c++
+					}
+				}
+				return c
+			}
+			for t := 0; t < 600 && (!(vp.HasParty(bhHash) || vp.Finished(bhHash)) || count() < stored); t++ {
+				time.Sleep(2 * time.Millisecond)
+				lines = append(lines, v.Log.Take()...)
+				if vp.Finished(bhHash) && !vp.HasParty(bhHash) {
+					time.Sleep(20 * time.Millisecond)
+					lines = append(lines, v.Log.Take()...)
+					break
+				}
+			}
+			// every kept message has entered the party; wait until the log is quiet (the last Update is over)
+			for quiet := 0; quiet < 8; {
+				time.Sleep(5 * time.Millisecond)
+				if l := v.Log.Take(); len(l) > 0 {
+					lines = append(lines, l...)
+					quiet = 0
+				} else {
+					quiet++
+				}
+			}
+			// split at the party's "update <id>" lines
+			var seg []logical.VerifR1LogLine
+			cur := -1
+			usedD := map[int]bool{}
+			flush := func() {
+				if cur >= 0 {
+					if closed {
+						// a message handed to a party that had already ended
+						obs[cur] = [2]int{oClosed, tNone}
+						if finished {
+							obs[cur] = [2]int{oFinished, tNone}
+						}
+					} else {
+						oc, term := procStep(seg)
+						obs[cur] = [2]int{oc, term}
+						if oc == oAdded || oc == oRecovered {
+							admitted = append(admitted, cur)
+						}
+						if term != tNone {
+							finalTerm = term
+							finished, closed = term == tDone, true
+						}
+						res.Histogram["msg(kept before cast):"+strings.TrimPrefix(msgs[cur].kind, "dup:")+"->"+oNames[oc]]++
+					}
+					drained = append(drained, cur)
+				}
+				seg = nil
+			}
+			for _, l := range lines {
+				if l.Format == "update %s" {
+					flush()
+					cur = -1
+					for _, ii := range idAll[strings.TrimPrefix(l.Text, "update ")] {
+						if ii < nPre && !usedD[ii] {
+							cur = ii
+							usedD[ii] = true
+							break
+						}
+					}
+				}
+				seg = append(seg, l)
+			}
+			flush()
+			if len(drained) != stored && !closed {
+				res.Violate("C15/processor:kept-message-lost", fmt.Sprintf("%d verify messages were kept for the block, %d reached the party", stored, len(drained)), desc())
+			}
+			// kept messages that never reached an ended party: the model sees them after the end
+			seenD := map[int]bool{}
+			for _, x := range drained {
+				seenD[x] = true
+			}
+			for i := 0; i < nPre; i++ {
+				if !skipped[i] && !seenD[i] {
+					drained = append(drained, i)
+					obs[i] = [2]int{oClosed, tNone}
+					if finished {
+						obs[i] = [2]int{oFinished, tNone}
+					}
+				}
+			}
+			order = append(order, drained...)
+		}
 		for i, m := range msgs {
-			if i < nFut {
+			if i < nFut || (procMode && i < nPre) {
 				continue
 			}
+			if procMode && m.filed != bhHash {
+				// routed by cvm.BlockHash: kept under another key, never shown to this party
+				skipped[i] = true
+				vp.OnMessageVerify(mkCvm(i))
+				if l := v.Log.Take(); has(l, "round1 update") {
+					res.Violate("C15/processor:misrouted", "a verify message filed under another block hash reached the party", desc())
+				}
+				continue
+			}
+			order = append(order, i)
 			if closed {
 				obs[i] = [2]int{oClosed, tNone}
+				if procMode {
+					if finished {
+						obs[i] = [2]int{oFinished, tNone}
+					}
+					vp.OnMessageVerify(mkCvm(i))
+					if l := v.Log.Take(); has(l, "round1 update") {
+						res.Violate("C15/processor:delivered-after-end", "a verify message reached the signing round after the party had ended", desc())
+					}
+				}
 				continue
 			}
 			cvm := mkCvm(i)
 			before := len(v.GIDs())
-			st := v.Update(cvm)
+			var st logical.VerifR1Step
+			procTerm := tNone
+			if procMode {
+				vp.OnMessageVerify(cvm)
+				st.Logs = v.Log.Take()
+				_, procTerm = procStep(st.Logs)
+			} else {
+				st = v.Update(cvm)
+			}
 			if pl := plog.Take(); len(pl) > 0 {
 				st.Logs = append(st.Logs, pl...)
 			}
 			oc, term := classify(st)
+			if procMode {
+				term = procTerm
+			}
 			obs[i] = [2]int{oc, term}
 			if has(st.Logs, "recover error") {
 				res.Violate("C15/panic:party-update:"+m.kind, "the party's Update panicked (recovered by the party): "+st.Logs[len(st.Logs)-1].Text[:200], desc())
@@ -1000,6 +1264,7 @@ func main() {
 				finalTerm = term
 				if term == tDone {
 					finished = true
+					closed = procMode
 				} else {
 					closed = true
 				}
@@ -1086,8 +1351,8 @@ func main() {
 		}
 		// liveness: k distinct members with a registered key delivered an honest message
 		hon := map[int]bool{}
-		for _, m := range msgs {
-			if m.honest && m.member >= 0 && known[m.member] {
+		for i, m := range msgs {
+			if m.honest && m.member >= 0 && known[m.member] && !skipped[i] {
 				hon[m.member] = true
 			}
 		}
@@ -1120,11 +1385,8 @@ func main() {
 		for _, oc := range futObs {
 			fol = append(fol, fmt.Sprintf("%d%%N", oc))
 		}
-		for i, m := range msgs {
-			if i < nFut {
-				continue
-			}
-			ml = append(ml, coqMsg(m))
+		for _, i := range order {
+			ml = append(ml, coqMsg(msgs[i]))
 			ol = append(ol, fmt.Sprintf("(%d,%d)%%N", obs[i][0], obs[i][1]))
 		}
 		for _, ai := range admitted {
